@@ -67,6 +67,9 @@ func runC12(c *core.Ctx) {
 		return
 	}
 	defer pool.Close()
+	// in the background: a history that arrives in two parts with half a minute of silence in between is the whole history
+	waitPaused := pausedPipes(c, map[string]string{"reg": "log", "bal": "log", "report totals": "log"})
+	defer waitPaused()
 	perDay := [][]string{{"reg"}, {"reg", "--internal-template-name", "left-aligned"}, {"reg", "--use-old-reg-reporter"}, {"reg", "--totals-only"}, {"csv", "log"}, {"print"}, {"reg", "-f", "P"}, {"reg", "-s", "X"}, {"reg", "-s", "X", "--csv"}, {"reg", "--shorten"}, {"reg", "--shorten", "--internal-template-name", "left-aligned"}, {"reg", "-f", "."}}
 	// bal --collapse is not composed: which segments it joins depends on the whole tree, so its row set is
 	// not additive over parts (a false alarm of an earlier version of this check, see DESIGN 10.3); C03 covers it
